@@ -22,16 +22,21 @@
           FixD12 = FALSE        handleDeadPeers clears bel of a peer whose outbound stream died although
                                 the connection and the inbound stream survive (section 5, D12)
           RetryRechecks = FALSE announceRetry resends without re-checking the current state (seeded)
-          RetryFanoutAware = FALSE  announceRetry's re-check ignores FanoutOnly (as found: ok == subs or relays)
+          RetryFanoutAware = FALSE  announceRetry's re-check ignores FanoutOnly (before fix D20: ok == subs or relays)
           ClosedOrdered = FALSE handleNewStream's deferred cleanup gives up its inboundStreams slot BEFORE it enqueues
                                 ClosedStream: the hello of a replacement stream can be processed first and is then
-                                wiped by the late ClosedStream (as found, finding C05-LATE-CLOSEDSTREAM; pclose[p] = ClosedStream not yet processed) *)
+                                wiped by the late ClosedStream (before fix D19; pclose[p] = ClosedStream not yet processed)
+          DupClears = FALSE     seeded: a REPLACED inbound stream (the peer opened a second one) reports no ClosedStream, so
+                                what was learnt on it survives although the new stream's hello no longer announces it
+   The constants TRUE are the checked behaviour (the repaired code: D19 = ClosedOrdered, D20 = RetryFanoutAware are fixed
+   in the tree; FixD12 is the property, the tree still deviates: known finding D12). *)
 EXTENDS Naturals, Sequences, FiniteSets, TLC
 
 CONSTANTS Topics, Peers, Cap,
           MaxOps, MaxDrops, MaxResetOut, MaxResetIn, MaxDisc, MaxGate, MaxHold, MaxRemote, MaxRef,
           AllowFanout,
-          FixD12, RetryRechecks, RetryFanoutAware, ClosedOrdered
+          MaxDup,
+          FixD12, RetryRechecks, RetryFanoutAware, ClosedOrdered, DupClears
 
 VARIABLES subs, relays, kind,
           conn, out, inb, q, infl, gated, hold, retry, wf, their, bel,
@@ -58,7 +63,7 @@ Init ==
     /\ retry = {} /\ wf = [p \in Peers |-> NoWire]
     /\ their = [p \in Peers |-> [t \in Topics |-> FALSE]]
     /\ bel = [t \in Topics |-> {}] /\ pclose = [p \in Peers |-> FALSE]
-    /\ cnt = [ops |-> 0, drops |-> 0, rout |-> 0, rin |-> 0, disc |-> 0, gate |-> 0, hold |-> 0, remote |-> 0]
+    /\ cnt = [ops |-> 0, drops |-> 0, rout |-> 0, rin |-> 0, disc |-> 0, gate |-> 0, hold |-> 0, remote |-> 0, dup |-> 0]
     /\ bad = {}
 
 Bump(f) == cnt' = [cnt EXCEPT ![f] = @ + 1]
@@ -182,6 +187,16 @@ RemoteSub(p, t) ==
     /\ bel' = IF inb[p] THEN [bel EXCEPT ![t] = IF their[p][t] THEN @ \ {p} ELSE @ \cup {p}] ELSE bel
     /\ UNCHANGED <<pclose, nutv, conn, out, inb, q, infl, gated, hold, retry, wf, bad>>
 
+(* the remote opens a SECOND stream to the NUT without closing the first, and its hello announces its CURRENT interest S,
+   which differs from what it said on the first stream. handleNewStream replaces the handler: the old stream is reset,
+   its ClosedStream clears everything learnt from the peer, then the new hello (which only ADDS topics) is processed *)
+InDup(p, S) ==
+    /\ conn[p] /\ inb[p] /\ ~pclose[p] /\ cnt.dup < MaxDup /\ Bump("dup")
+    /\ S # their[p] /\ \E t \in Topics : S[t]          \* an empty hello is not written at all
+    /\ their' = [their EXCEPT ![p] = S]
+    /\ bel' = [t \in Topics |-> IF S[t] THEN bel[t] \cup {p} ELSE IF DupClears THEN bel[t] \ {p} ELSE bel[t]]
+    /\ UNCHANGED <<pclose, nutv, conn, out, inb, q, infl, gated, hold, retry, wf, bad>>
+
 (* only the NUT's outbound stream dies, the connection survives: handleDeadPeers closes the queue, clears what was
    learnt from the peer's INBOUND stream (as found), and respawns the writer with a fresh queue *)
 ResetOutbound(p) ==
@@ -221,6 +236,7 @@ Env ==
     \/ \E p \in Peers : PeerConnect(p) \/ Disconnect(p) \/ ResetOutbound(p) \/ ResetInbound(p)
                          \/ Gate(p) \/ Ungate(p) \/ Hold(p) \/ Release(p)
     \/ \E p \in Peers, t \in Topics : RemoteSub(p, t)
+    \/ \E p \in Peers, S \in [Topics -> BOOLEAN] : InDup(p, S)
 
 Next == Internal \/ Env
 Spec == Init /\ [][Next]_vars
